@@ -366,6 +366,19 @@ static void dateTimes(Rng &rng, bool thorough) {
     int n = thorough ? 30000 : 3000;
     for (int i = 0; i < n; i++) dtRoundtrip(randCivil(rng));
     section("dt-boundary-days");
+    // the same instants held with another time spec (offset from UTC): the value that comes back is the same instant
+    for (int i = 0; i < n / 6; i++) {
+        Civil c = randCivil(rng);
+        if (c.y < 2 || c.y > 9998) continue;   // keep the UTC form inside the four-digit range
+        int off = (int(rng.below(2 * 14 * 4 + 1)) - 14 * 4) * 900;   // -14:00 .. +14:00 in quarter hours
+        QDateTime v(QDate(c.y, c.mo, c.d), QTime(c.h, c.mi, c.s, c.ms), Qt::OffsetFromUTC, off);
+        QString s = QXmppUtils::datetimeToString(v);
+        QDateTime back = QXmppUtils::datetimeFromString(s);
+        if (back.isValid() && back == v && back.toMSecsSinceEpoch() == v.toMSecsSinceEpoch()) oraclePass()++;
+        else oracleFail("C01:datetime-roundtrip", "value=" + showDt(v) + " offset=" + std::to_string(off) + " serialized=" + s.toStdString() + " parsed=" + showDt(back));
+        dtParse(s, "own");
+        stat("dt_roundtrip_offset_spec_values");
+    }
     // boundary days
     for (int y : { 1, 4, 100, 400, 1582, 1600, 1900, 1970, 1999, 2000, 2020, 2021, 2024, 2100, 2400, 9996, 9999 }) {
         for (int mo = 1; mo <= 12; mo++) {
@@ -485,6 +498,20 @@ static void dateTimes(Rng &rng, bool thorough) {
         dtParse("2020-01-02" + f, "field_after_date");
     }
     section("dt-mutated");
+    // longer random fields (group separators, signs, blanks) where Qt reads up to 4/5/6 characters
+    {
+        std::vector<QString> fa = { "0", "1", "5", "9", ",", "+", "-", " ", ".", "x", ":", U("\xe2\x88\x92"), U("\xc2\xa0") };
+        for (int i = 0; i < (thorough ? 30000 : 3000); i++) {
+            QString f; int len = 1 + int(rng.below(6));
+            for (int k = 0; k < len; k++) f += fa[rng.below(rng.below(3) ? 4 : uint32_t(fa.size()))];
+            switch (rng.below(4)) {
+            case 0: dtParse("2020-01-02T03:04." + f + (rng.coin() ? "Z" : ""), "field_minute_fraction_long"); break;
+            case 1: dtParse("2020-01-02T03:04:05." + f + (rng.coin() ? "Z" : ""), "field_msec_long"); break;
+            case 2: dtParse("2020-01-02T03:04:05" + QString(rng.coin() ? "+" : "-") + f, "field_offset_long"); break;
+            default: dtParse(f.left(4).leftJustified(4, QLatin1Char('0')) + "-01-02T03:04:05Z", "field_year_long"); break;
+            }
+        }
+    }
     // ---- mutation fuzz of valid strings and random strings over the date-time alphabet
     const QString pool = QStringLiteral("0123456789-:TZ+., tz/_x") + U("\xe2\x88\x92\xe2\x80\x93\xe3\x80\x81\xc2\xa0");
     n = thorough ? 60000 : 6000;
@@ -614,9 +641,14 @@ int main(int argc, char **argv) {
     tzo(rng, thorough);
     enums(rng, thorough);
 
-    sample("scalar-int 8 u '255' -> " + showT<uint8_t>(*parseInt<uint8_t>(QStringLiteral("255"))));
-    sample("scalar-dtparse '2020-01-02T03:04:05.5005+01:00' -> " + showDt(QXmppUtils::datetimeFromString(QStringLiteral("2020-01-02T03:04:05.5005+01:00"))));
-    sample("scalar-b64dec 'QU JD*' -> " + hexB(*parseBase64(QStringLiteral("QU JD*"))));
+    {
+        auto u8 = parseInt<uint8_t>(QStringLiteral("255"));
+        sample(std::string("parseInt<uint8_t>('255') -> ") + (u8 ? showT<uint8_t>(*u8) : "nullopt"));
+        sample("datetimeFromString('2020-01-02T03:04:05.5005+01:00') -> " + showDt(QXmppUtils::datetimeFromString(QStringLiteral("2020-01-02T03:04:05.5005+01:00"))));
+        auto b = parseBase64(QStringLiteral("QU JD*"));
+        sample(std::string("parseBase64('QU JD*') -> ") + (b ? hexB(*b) : "nullopt"));
+        sample("datetimeToString(10000-01-01T00:00:00Z) -> '" + QXmppUtils::datetimeToString(mk({ 10000, 1, 1, 0, 0, 0, 0 })).toStdString() + "'");
+    }
     finish();
     return 0;
 }
